@@ -281,10 +281,11 @@ NotifyRet(c, n) == DropNot(c, n)
 -----------------------------------------------------------------------------
 (* registertower                                                           *)
 
-NewReg(id, t) == [id |-> id, t |-> t, pc |-> "new", rep |-> NoRep, seq |-> 0]
+\* port: the address the user gives (a tower may be registered again through another one)
+NewReg(id, t, port) == [id |-> id, t |-> t, port |-> port, pc |-> "new", rep |-> NoRep, seq |-> 0]
 SetReg(c, g, g2) == [c EXCEPT !.regs = (@ \ {g}) \cup {g2}]
 
-RegCall(c, id, t) == IF ~c.alive THEN {c} ELSE {[c EXCEPT !.regs = @ \cup {NewReg(id, t)}]}
+RegCall(c, id, t, port) == IF ~c.alive THEN {c} ELSE {[c EXCEPT !.regs = @ \cup {NewReg(id, t, port)}]}
 
 RegCanSend(c, g) == g.pc = "new" /\ ~c.poisoned
 RegSend(c, g, seq) == SetReg(c, g, [g EXCEPT !.pc = "wait", !.seq = seq])
@@ -301,15 +302,15 @@ RegRefused(c, g) ==
          ELSE {SetReg(c, g, [g EXCEPT !.pc = "err"])}
 
 \* C14 RegRecorded: only a receipt that verifies under the tower id and strictly extends what is known is recorded
-RegApply(st, t, r) ==
+RegApply(st, t, r, port) ==
     IF r.cls = "accept" /\ RegAccepted(st, t, r.slots, r.expiry)
-    THEN AddUpdateTower(st, t, 0, r.slots, r.start, r.expiry) ELSE st
+    THEN AddUpdateTower(st, t, port, r.slots, r.start, r.expiry) ELSE st
 
 RegRecv(c, g) ==
     IF g.pc # "got" THEN {}
     ELSE IF c.poisoned THEN {Die([c EXCEPT !.regs = @ \ {g}])}
     ELSE LET ok == g.rep.cls = "accept" /\ RegAccepted(c.st, g.t, g.rep.slots, g.rep.expiry)
-         IN {[SetReg(c, g, [g EXCEPT !.pc = IF ok THEN "ok" ELSE "err"]) EXCEPT !.st = RegApply(@, g.t, g.rep)]}
+         IN {[SetReg(c, g, [g EXCEPT !.pc = IF ok THEN "ok" ELSE "err"]) EXCEPT !.st = RegApply(@, g.t, g.rep, g.port)]}
 
 RegCanRet(c, g, res) == g.pc = res /\ res \in {"ok", "err"}
 RegRet(c, g) == [c EXCEPT !.regs = @ \ {g}]
@@ -436,7 +437,9 @@ RunRegRecv(c, t, tm) ==
     ELSE IF r.rep.cls # "accept" THEN {[c EXCEPT !.rt[t].pc = "end_sub"]}
     ELSE IF c.poisoned THEN {RunDies(c, t)}
     ELSE IF ~Known(c, t) \/ RegAccepted(c.st, t, r.rep.slots, r.rep.expiry)
-         THEN {[c EXCEPT !.st = RegApply(@, t, r.rep), !.rt[t].pc = "loop", !.rt[t].rep = NoRep]}
+         \* (the retrier renews through the address it knows)
+         THEN {[c EXCEPT !.st = RegApply(@, t, r.rep, IF Known(c, t) THEN Mem(c.st, t).port ELSE 0),
+                         !.rt[t].pc = "loop", !.rt[t].rep = NoRep]}
          ELSE {[c EXCEPT !.rt[t].pc = "end_sub"]}
 
 \* an earlier rejection of (t, l) is forgotten (the data stays while something else refers to it)
